@@ -130,7 +130,11 @@ void registerHeaders(std::map<std::string, Op>& ops)
                         if (dv == "-") ds.emplace_back(d); else ds.emplace_back(d, std::chrono::seconds(atoll(dv.c_str())));
                     }
                 }
-                h = std::make_shared<Header::CacheControl>(ds);
+                // the same value through the different ways the API offers to build it
+                if (ds.size() == 1) h = std::make_shared<Header::CacheControl>(ds[0]);
+                else if (ds.size() == 3) { auto cc = std::make_shared<Header::CacheControl>(); for (auto& d : ds) cc->addDirective(d); h = cc; }
+                else if (ds.size() % 2 == 0 && !ds.empty()) { auto cc = std::make_shared<Header::CacheControl>(); cc->addDirectives(ds); h = cc; }
+                else h = std::make_shared<Header::CacheControl>(ds);
             } else if (name == "Connection") {
                 ConnectionControl c = w[2] == "Close" ? ConnectionControl::Close : (w[2] == "KeepAlive" ? ConnectionControl::KeepAlive : ConnectionControl::Ext);
                 h = std::make_shared<Header::Connection>(c);
@@ -145,7 +149,9 @@ void registerHeaders(std::map<std::string, Op>& ops)
             } else if (name == "Server") {
                 std::vector<std::string> ts;
                 if (w[2] != "-") { std::stringstream ss(w[2]); std::string it; while (std::getline(ss, it, ',')) { std::string t; if (!fromHex(it, t)) return "bad-op"; ts.push_back(t); } }
-                h = std::make_shared<Header::Server>(ts);
+                if (ts.size() == 1 && ts[0].size() % 2 == 0) h = std::make_shared<Header::Server>(ts[0]);
+                else if (ts.size() == 1 && ts[0].find('\0') == std::string::npos) h = std::make_shared<Header::Server>(ts[0].c_str());
+                else h = std::make_shared<Header::Server>(ts);
             } else if (name == "Expect") {
                 h = std::make_shared<Header::Expect>(w[2] == "1" ? Expectation::Continue : Expectation::Ext);
             } else if (name == "Date") {
